@@ -40,11 +40,13 @@ ASSUMPTIONS = [
     "finite-diff / spsa perturb the tape's gate parameters; the pool only contains operations with a grad_method, so no decomposition "
     "changes the parameter set before the perturbation.",
     "SPSA uses the default Rademacher sampler with an integer sampler_rng (same directions on every call, as documented).",
+    "Broadcast (batched) parameters only feed plain named gates: Adjoint2 / ControlledOp2 in this tree do not propagate batch_size "
+    "(qp.adjoint(qp.RX([.1,.2],0)).batch_size is None), so wrapped batched operators are not executable at all (reported separately).",
     "Fractional powers use the principal branch (parameters of the base kept in (-pi, pi)).",
     "qp.evolve(H, t): t is a scalar (never the broadcast argument) and not traced by jax.jit; Evolution documents that it 'may not be "
     "differentiable' and its has_generator / generator test the concrete value of the coefficient.",
 ]
-BUDGET = {"quick": {"examples": 270, "min_nontrivial": 40}, "thorough": {"examples": 24000, "shards": 16, "min_nontrivial": 500}}
+BUDGET = {"quick": {"examples": 240, "min_nontrivial": 40}, "thorough": {"examples": 24000, "shards": 16, "min_nontrivial": 500}}
 SHRINK_LISTS = ("ops", "meas")
 
 # ------------------------------------------------------------------------------------------------ gate pool
@@ -160,8 +162,9 @@ def _program(draw, tier):
     if batch_arg is not None and not any((batch_arg, None) in hybrid.deps(e) for o in ops for e in hybrid.op_exprs(o)):
         ops.append({"op": "RX", "p": [["arg", batch_arg, None]], "w": sub(1)})
     meas = []
+    expval_only = draw(st.integers(0, 4)) < 2  # adjoint / hadamard modes only accept expectation values
     for _ in range(draw(st.sampled_from([1, 1, 1, 2, 2, 3]))):
-        mk = draw(st.sampled_from(["expval", "expval", "expval", "var", "probs"]))
+        mk = "expval" if expval_only else draw(st.sampled_from(["expval", "expval", "expval", "var", "probs"]))
         if mk == "probs":
             meas.append({"mp": "probs", "w": sub(draw(st.integers(1, min(n, 2))))})
         else:
@@ -199,7 +202,7 @@ def _config(draw, tier, prog):
     if kinds == {"expval"}:
         likely += ["adjoint", "adjoint"]
         if not batched:
-            likely += ["hadamard", "hadamard", "hadamard", "hadamard"]
+            likely += ["hadamard"] * 7
     elif "var" not in kinds and not batched:
         likely += ["hadamard"]
     wild = draw(st.integers(0, 6)) == 0
@@ -249,6 +252,7 @@ _REJECT_PATTERNS = [
     ("QuantumFunctionError", "does not support backprop with requested circuit"),
     ("ValueError", "Gradient transforms cannot be used with grad_on_execution=True"),
     ("ValueError", "require an auxiliary wire"),
+    ("ValueError", "which requires an auxiliary wire"),  # hadamard mode='auto' with probs and no aux_wire
     ("ValueError", "Computing the gradient of variances with the"),
     ("ValueError", "Computing the gradient of probabilities with the"),
     ("ValueError", "Computing the gradient of circuits that return the state"),
@@ -482,7 +486,7 @@ def check(spec):
         try:  # an exception must be reproducible: state left behind by an earlier traced case is not a finding
             run_jacobian(prog, cfg)
         except Exception:  # noqa: BLE001
-            raise e from None
+            _raise_exception_violation(e, prog, cfg, B, sig, feats)
         raise Reject("exception not reproduced on a second evaluation (state left by an earlier case)") from None
 
     def viol(clause, detail, vsig):
@@ -560,6 +564,41 @@ def check(spec):
         labels.append("preprocessing")
     nontrivial = x0.size >= 2 and float(np.abs(Jref).max()) > 1e-3
     return Result(nontrivial, labels)
+
+
+def _walk_ops(ops):
+    for o in ops:
+        yield o
+        if "base" in o:
+            yield from _walk_ops([o["base"]])
+
+
+def _has_sprod(h):
+    return h["op"] == "s_prod" or any(_has_sprod(x) for x in h.get("operands", []))
+
+
+def _raise_exception_violation(e, prog, cfg, B, sig, feats):
+    """Report an exception of the code under test with features that identify its input class."""
+    from pv.engine import _origin
+
+    origin, where = _origin(e.__traceback__)
+    if origin != "sut":
+        raise e
+    name, msg = type(e).__name__, str(e)
+    f = dict(feats, exc=name, where=where)
+    ops = list(_walk_ops(prog["ops"]))
+    trainable = lambda o: any(not hybrid.is_const(x) for x in hybrid.op_exprs(o))  # noqa: E731
+    if cfg["method"] == "adjoint" and name == "ValueError" and "expected 'arg_specs' dtype" in msg and any(m["mp"] != "expval" for m in prog["meas"]):
+        f["adjoint_no_obs_measurement"] = True
+    if name == "IndexError" and where.endswith("bind_new_parameters_sprod") and any(o["op"] == "evolve" and _has_sprod(o["H"]) for o in ops):
+        f["evolve_sprod_base"] = True
+    if name == "OperatorPropertyUndefined" and cfg["method"] in ("parameter-shift", "ps-broadcast") and any(
+            o["op"] == "ctrl" and o["base"]["op"] == "Rot" and (len(o["cw"]) >= 2 or 0 in (o.get("cv") or [])) and trainable(o) for o in ops):
+        f["ctrl_rot_param_shift"] = True
+    if name == "RuntimeError" and "Can't call numpy() on Tensor that requires grad" in msg and cfg["iface"] == "torch" and B is not None and any(
+            o["op"] == "IsingXY" and any((a, None) in hybrid.deps(x) and prog["args"][a]["shape"] for x in o["p"] for a in range(len(prog["args"]))) for o in ops):
+        f["isingxy_torch_batch"] = True
+    raise Viol("unexpected-exception", f"{name}: {msg}"[:600], sig=f"{name}@{where}", features=f) from None
 
 
 def _other_rejection(e, prog, cfg, B):
